@@ -19,7 +19,7 @@ from .common import make_rodded, set_int_params, set_temps, make_unrodded, patch
 from pvc import core, normal
 from pvc.core import Sym
 
-MODULES = common.RR_MODULES + common.UR_MODULES + ['dassh.core']
+MODULES = common.RR_MODULES + common.UR_MODULES + ['dassh.core', 'dassh.assembly']
 PROPERTY = 'C04'
 FUNCTIONS = [
     'dassh.region_rodded:_calculate_int_dz', 'dassh.region_rodded:_calculate_byp_dz',
@@ -31,6 +31,7 @@ FUNCTIONS = [
     'dassh.region_rodded:RoddedRegion._calc_coolant_byp_temp_stagnant',
     'dassh.region_unrodded:calculate_min_dz', 'dassh.region_unrodded:SingleNodeHomogeneous._calc_coolant_temp',
     'dassh.region_unrodded:MultiNodeHomogeneous._calc_coolant_temp',
+    'dassh.region_rodded:calculate_min_dz (aggregation)', 'dassh.assembly:calculate_min_dz',
     'dassh.core:calculate_min_dz', 'dassh.core:Core._flow_model', 'dassh.core:Core._noflow_model',
     'dassh.core:Core._duct_average_model',
 ]
@@ -540,6 +541,91 @@ gap_static.cname = 'Core._noflow_model/_duct_average_model'
 gap_static.run_kw = dict(max_paths=400, budget_ms=8000, check_div=False)
 
 
+# ---------------------------------------------------------------------------------------
+# aggregation of the limits: bundle (two temperatures, interior + bypass) and assembly (all regions)
+class _BundleStub:
+    def __init__(self, S, n_bypass, flowing):
+        self.n_bypass = n_bypass
+        self.byp_flow_rate = np.array([1.0 if flowing else 0.0] * n_bypass)
+
+        class _C:
+            temperature = 555.0
+        self.coolant = _C()
+        self.int_updates = []
+        self.byp_updates = []
+
+    def _update_coolant_int_params(self, temp, use_mat_tracker=True):
+        self.int_updates.append(temp)
+        self.coolant.temperature = temp
+
+    def _update_coolant_byp_params(self, temps):
+        self.byp_updates.append(list(temps))
+
+
+def aggregate(S, cfg):
+    """region_rodded.calculate_min_dz and assembly.calculate_min_dz return a value that is <= every limit they were
+    given (interior and bypass limits at BOTH temperatures; every axial region), i.e. the minimum; the bundle's coolant
+    state is restored"""
+    from dassh import region_rodded as RR, region_unrodded as UR, assembly as A
+    n_byp, flowing = cfg.get('n_bypass', 0), cfg.get('flowing', True)
+    b = _BundleStub(S, n_byp, flowing)
+    T_lo, T_hi = 600.0, 800.0
+    lims = {}
+
+    def int_dz(bundle, which):
+        T = bundle.coolant.temperature
+        lims[('int', T)] = S.pos(f'lim_int_{int(T)}', 1e-4, 1e-2)
+        return lims[('int', T)], '1-111'
+
+    def byp_dz(bundle, which):
+        T = bundle.coolant.temperature
+        lims[('byp', T)] = S.pos(f'lim_byp_{int(T)}', 1e-4, 1e-2)
+        return lims[('byp', T)], '6-66'
+    with patched((RR, '_calculate_int_dz', int_dz), (RR, '_calculate_byp_dz', byp_dz), (RR, 'min', sym_min)):
+        res, code = RR.calculate_min_dz(b, T_lo, T_hi, cfg.get('adiabatic', False))
+    want = [('int', T_lo), ('int', T_hi)] + ([('byp', T_lo), ('byp', T_hi)] if n_byp and flowing else [])
+    S.holds('aggregate.bundle.evaluated_at_both_temperatures', sorted(lims) == sorted(want))
+    for k in want:
+        if k in lims:
+            S.le(f'aggregate.bundle.le[{k[0]},{int(k[1])}]', res, lims[k])
+    prod = 1
+    for k in lims:
+        prod = prod * (res - lims[k])
+    S.eq('aggregate.bundle.is_one_of_the_limits', prod, 0)
+    S.holds('aggregate.bundle.coolant_state_restored', b.int_updates[-1] == 555.0)
+    # assembly level
+
+    class _Reg:
+        def __init__(self, rodded):
+            self.is_rodded = rodded
+    regs = [_Reg(False), _Reg(True), _Reg(False)]
+    asm = A.Assembly.__new__(A.Assembly)
+    asm.region = regs
+    rl = {}
+
+    def rr_min(r, t1, t2, ad=False):
+        rl[id(r)] = S.pos('lim_region_rodded', 1e-4, 1e-2)
+        return rl[id(r)], 'x'
+
+    def ur_min(r, t1, t2, ad=False):
+        rl[id(r)] = S.pos(f'lim_region_unrodded{len(rl)}', 1e-4, 1e-2)
+        return rl[id(r)], 'y'
+    with patched((A.region_rodded, 'calculate_min_dz', rr_min), (A.region_unrodded, 'calculate_min_dz', ur_min),
+                 (A, 'min', sym_min)):
+        ares, acode = A.calculate_min_dz(asm, T_lo, T_hi, False)
+    S.holds('aggregate.assembly.every_region_asked', len(rl) == 3)
+    prod = 1
+    for k, v in rl.items():
+        S.le(f'aggregate.assembly.le[{list(rl).index(k)}]', ares, v)
+        prod = prod * (ares - v)
+    S.eq('aggregate.assembly.is_one_of_the_limits', prod, 0)
+    S.lt('canary.aggregate_is_first', lims[('int', T_lo)], res, canary=True)
+
+
+aggregate.cname = 'region_rodded.calculate_min_dz/assembly.calculate_min_dz'
+aggregate.run_kw = dict(max_paths=400, check_div=False)
+
+
 def configs(tier):
     out = []
     for n in (2, 3, 4):
@@ -559,6 +645,9 @@ def configs(tier):
         out.append((gap_flow, dict(present=present, types=types)))
     out.append((gap_static, dict(present=(1, 1, 1), types='acU', model='no_flow')))
     out.append((gap_static, dict(present=(1, 1, 1), types='acU', model='duct_average')))
+    out.append((aggregate, dict()))
+    out.append((aggregate, dict(n_bypass=2, flowing=True, adiabatic=True)))
+    out.append((aggregate, dict(n_bypass=1, flowing=False)))
     if tier == 'thorough':
         out.append((gap_flow, dict(present=(1,) * 7, types='abUcabU')))
         out.append((interior, dict(n_ring=5)))
